@@ -20,8 +20,12 @@ _CMPOPS = {
 }
 
 
-def _sym(x):
-    return isinstance(x, (SV, SArr)) or is_z3(x)
+def _sym(x, depth=0):
+    if isinstance(x, (SV, SArr)) or is_z3(x):
+        return True
+    if depth < 3 and isinstance(x, (list, tuple)):
+        return any(_sym(e, depth + 1) for e in x)
+    return False
 
 
 def scalar_binop(op, a, b):
@@ -116,8 +120,10 @@ def array_binop(op, a, b):
         # bool + bool -> logical or / and
         fn = (lambda x, y: z3.Or(x, y)) if op == "Add" else (lambda x, y: z3.And(x, y))
         return A.ewise(fn, dt, aa, bb)
-    ca = A.cast_fn(aa.dtype, dt, lambda idx: None)
-    def fn(x, y):
+    # rounding-error model (A-FPSTD) keyed per operation instance: one error function per call site execution
+    errf = {}
+
+    def fn(idx, x, y):
         x = A.cast_term(aa.dtype, dt, x) if op not in ("BitAnd", "BitOr", "BitXor") or dt.kind != "b" else x
         y = A.cast_term(bb.dtype, dt, y) if op not in ("BitAnd", "BitOr", "BitXor") or dt.kind != "b" else y
         r = scalar_binop(op, x, y)
@@ -126,8 +132,18 @@ def array_binop(op, a, b):
             lo, hi = A.int_range(dt)
             m = hi - lo + 1
             r = ((r - lo) % m) + lo
+        if A.FP_ERR[0] and dt == np.dtype("float32") and op in ("Add", "Sub", "Mult", "Div"):
+            one = z3.RealVal(1)
+            exact = (op in ("Mult", "Div") and (z3.eq(z3.simplify(y), one) or (op == "Mult" and z3.eq(z3.simplify(x), one))))
+            if not exact:
+                if "f" not in errf:
+                    errf["f"] = z3.Function(A.fresh_name("fl32err"), *([z3.IntSort()] * len(idx)), z3.RealSort()) if idx else z3.Const(A.fresh_name("fl32err"), z3.RealSort())
+                d = errf["f"](*idx) if idx else errf["f"]
+                A.note_fact(d >= -A.U32, d <= A.U32)
+                # a factor that is exactly 1 makes the operation exact
+                r = z3.If(z3.Or(y == 1, x == 1) if op == "Mult" else (y == 1 if op == "Div" else z3.BoolVal(False)), r, r * (1 + d))
         return r
-    return A.ewise(fn, dt, aa, bb)
+    return A.ewise(fn, dt, aa, bb, with_idx=True)
 
 
 def _pytype(x):
